@@ -1,6 +1,6 @@
 //go:build verif
 
-//verif:bounds framebuffer console: depth 8/16 (Fill: 8/16/24) with pitch padding 3 and a one-row logo (quick) or depth 8/15/16/24/32, padding {0,3}, logo {0,1} (thorough), RGB mask layout 5-5-5/5-6-5/8-8-8 (quick) or fully symbolic positions/sizes (thorough), colour indices 0..15 (quick) / 0..255 (thorough), pitch = row bytes + {0,3}, logo offset {0,1} rows, synthetic fonts 8x2 (1 byte/row) and 9x2 (2 bytes/row) with 4 glyphs of symbolic data, grid 2x2 cells plus one remainder column and one remainder row; every framebuffer byte arbitrary; every 32-bit x, y, width, height, line count; character < 4 (the synthetic fonts have 4 glyphs), every 8-bit colour index; SetPaletteColor: concrete checkerboard picture of two palette colours with padding bytes 0xee, new colour symbolic; fb_pack32: 32 bpp with R@24 G@16 B@8, Fill of one cell
+//verif:bounds framebuffer console: depth 8/16 (Fill: 8/16/24) with pitch padding 11 (more than one glyph of 8 bpp pixels, so that a column count derived from the pitch would differ; odd, so that rows go out of step with 2- and 3-byte pixels) and a one-row logo (quick) or depth 8/15/16/24/32, padding {0,11}, logo {0,1} (thorough), RGB mask layout 5-5-5/5-6-5/8-8-8 (quick) or fully symbolic positions/sizes (thorough), colour indices 0..15 (quick) / 0..255 (thorough), pitch = row bytes + {0,11}, logo offset {0,1} rows, synthetic fonts 8x2 (1 byte/row) and 9x2 (2 bytes/row) with 4 glyphs of symbolic data, grid 2x2 cells plus one remainder column and one remainder row; every framebuffer byte arbitrary; every 32-bit x, y, width, height, line count; character < 4 (the synthetic fonts have 4 glyphs), every 8-bit colour index; SetPaletteColor: concrete checkerboard picture of two palette colours with padding bytes 0xee, new colour symbolic; fb_pack32: 32 bpp with R@24 G@16 B@8, Fill of one cell
 //verif:assumes the frame buffer is a Go slice of exactly height*pitch bytes (an access outside it is a Go index panic = violation); palette = the driver's own default palette; port writes stubbed
 package console
 
@@ -12,7 +12,7 @@ import (
 	"github.com/ProjectSerenity/firefly/kernel/zzverif"
 )
 
-const vfFbMax = 512
+const vfFbMax = 640
 
 type vfFb struct {
 	cons                                  *VesaFbConsole
@@ -42,7 +42,7 @@ func vfNewFbDepth(bpp uint32, ci *multiboot.FramebufferRGBColorInfo) *vfFb {
 	f.gh = 2
 	f.cols, f.rows = 2, 2
 	f.rc, f.rr = 1, 1
-	f.pad = [2]uint32{3, 0}[zzverif.Choice("pad", zzverif.Param("pads", 1, 2))]
+	f.pad = [2]uint32{11, 0}[zzverif.Choice("pad", zzverif.Param("pads", 1, 2))]
 	f.offY = uint32([2]int{1, 0}[zzverif.Choice("logo", zzverif.Param("logos", 1, 2))])
 	f.bytesPP = (f.bpp + 1) >> 3
 	f.width = f.cols*f.gw + f.rc
@@ -225,9 +225,8 @@ func Verif_C19_fb_scroll() {
 	if lines <= f.rows+1 {
 		lines = uint32(zzverif.Split("lines", uint64(lines), 5))
 	}
-	// KF-C19-1: Scroll copies whole pitch rows, so it rewrites padding bytes when pitch > row bytes,
-	// and scrolling down also shifts the remainder rows below the grid.
-	zzverif.Known("KF-C19-1", zzverif.Or(f.pad > 0, zzverif.And(dir == ScrollDirDown, f.rr > 0)))
+	// KF-C19-1 (fixed): Scroll used to copy whole pitch rows, rewriting padding bytes when pitch > row bytes, and
+	// scrolling down also shifted the remainder rows below the grid.
 	panicked := zzverif.Catch(func() { f.cons.Scroll(dir, lines) })
 	zzverif.Assert(!panicked, "Scroll never touches memory outside the framebuffer")
 	if panicked {
